@@ -238,3 +238,137 @@ Print Assumptions C17_replay_full_refuted.
 Theorem C17_replay_examples : replay_nonvacuous.
 Proof. exact replay_nonvacuous_holds. Qed.
 Print Assumptions C17_replay_examples.
+
+(* ======================= contents of the table-like deliveries of Code =======================
+
+   Vocabulary (coq/C17/Model.v, Replay.v, Theory15.v).  The events carry PARSED rows: [EDeferred slot sources]
+   — a table visited after the Code attribute loop (visit_line_numbers, visit_local_variables) — holds, per
+   attribute that was collected into it (file order), the rows that attribute contributed, one row = the u16
+   fields its arm reads (LineNumberTable [start_pc; line_number]; LocalVariableTable [start_pc; length;
+   name_index; descriptor_index; index]; LocalVariableTypeTable the same with signature_index); the number
+   of u16 per row is read off the arm's loop by the translator ([t_rows]).  [ECode … exc …] holds the rows of
+   the exception table [start_pc; end_pc; handler_pc; catch_type].  The tree keeps a table as its rows in
+   order, each tagged with the attribute it came from (for a local variable: whether descriptor or signature
+   is Some); Code::accept filters them row by row.  Because the theorems above are equalities / [sim_trace]
+   on these events, they already cover the rows; the statements below say so explicitly.
+   [delivers t k d]: in trace t the code visitor of the k-th method is handed d — [DTable slot rows] (the
+   rows of one table, in order, each with its source attribute) or [DExc rows] (the exception table).
+   [restrict T cm d]: d without the rows of the attributes that the code interests cm do not cover. *)
+From FB Require Import C17.Theory15.
+
+(* the parsed rows are the values the bytes encode: the row parser inverts the row encoder, for every width *)
+Theorem C17_table_rows_parse : forall w rows, Forall (fun r => length r = w) rows ->
+  table_rows (N.of_nat w) (enc_table rows) = rows.
+Proof. exact table_rows_enc. Qed.
+Print Assumptions C17_table_rows_parse.
+
+Theorem C17_exc_rows_parse : forall rows, Forall (fun r => length r = 4%nat) rows ->
+  exc_rows (elen rows) (flat_map enc_row rows) = rows.
+Proof. exact exc_rows_enc. Qed.
+Print Assumptions C17_exc_rows_parse.
+
+(* with the row widths the translator reads off class_reader.rs today: 2, 5 and 5 u16 *)
+Theorem C17_generated_rows_of :
+  (forall rows, Forall (fun r => length r = 2%nat) rows -> rows_of code_table nLNT (enc_table rows) = rows)
+  /\ (forall rows, Forall (fun r => length r = 5%nat) rows -> rows_of code_table nLVT (enc_table rows) = rows)
+  /\ (forall rows, Forall (fun r => length r = 5%nat) rows -> rows_of code_table nLVTT (enc_table rows) = rows).
+Proof. exact generated_rows_of. Qed.
+Print Assumptions C17_generated_rows_of.
+
+(* content_projection for the tables: whatever the projection hands the code visitor of method k is what the
+   full trace hands it, minus the rows of the attributes outside its interests — same rows, same order; the
+   exception table is handed over unchanged *)
+Theorem C17_project_delivers : forall T v t k d, delivers (project T v t) k d ->
+  exists cm d0, v_code v k = Some cm /\ delivers t k d0 /\ d = restrict T cm d0.
+Proof. exact project_delivers. Qed.
+Print Assumptions C17_project_delivers.
+
+(* … on the bytes of a well-formed class, for every visitor *)
+Theorem C17_read_rows_projection : forall T g c h, tables_ok T = true -> wf g T c h ->
+  forall v rest t_v, read_class g T v (enc c ++ rest) = Ok (t_v, rest) ->
+  forall k d, delivers t_v k d ->
+    exists cm d0, v_code v k = Some cm /\ delivers (spec_class T (v_full T) h c) k d0 /\ d = restrict T cm d0.
+Proof. exact read_rows_projection. Qed.
+Print Assumptions C17_read_rows_projection.
+
+(* the equivalence of the replay theorems preserves every delivery: same tables, same rows in the same order
+   with the same source attribute, same exception table *)
+Theorem C17_sim_delivers : forall a b, sim_trace a b -> forall k d, delivers a k d <-> delivers b k d.
+Proof. exact sim_delivers. Qed.
+Print Assumptions C17_sim_delivers.
+
+(* content_replay for the tables: replaying the tree hands every visitor exactly the deliveries of the
+   projection of the full read *)
+Theorem C17_replay_rows : forall T AT, tables_ok T = true -> accept_ok T AT = true ->
+  forall t_full tree, build true T AT t_full = Ok tree ->
+  forall v k d, delivers (accept_class T AT v tree) k d <-> delivers (project T v t_full) k d.
+Proof. exact replay_rows. Qed.
+Print Assumptions C17_replay_rows.
+
+Theorem C17_replay_rows_known : forall T AT, tables_ok T = true -> accept_ok T AT = true ->
+  forall t_full tree, build false T AT t_full = Ok tree -> replay_inexact T AT t_full = false ->
+  forall v k d, delivers (accept_class T AT v tree) k d <-> delivers (project T v t_full) k d.
+Proof. exact replay_rows_known. Qed.
+Print Assumptions C17_replay_rows_known.
+
+(* non-vacuity, and the order of the rows: a Code with LocalVariableTypeTable, LocalVariableTable,
+   LocalVariableTypeTable (one row each) and one exception-table entry is well-formed, outside the known
+   class, its tree is built; reading and replaying deliver the three rows in FILE order to the full visitor,
+   and the two type-table rows in order to a visitor interested in local_variable_type_table only *)
+Theorem C17_interleaved_tables : interleaved_statement.
+Proof. exact interleaved_holds. Qed.
+Print Assumptions C17_interleaved_tables.
+
+(* ======================= the tree builder succeeds (build_succeeds) =======================
+
+   Vocabulary (coq/C17/Theory16.v).  [once_b T AT c]: no item of c (the class, a field, a method, a Code, a record
+   component) carries two attributes whose visit call fills the same insert_if_empty field of the tree
+   (Signature, ConstantValue, EnclosingMethod, …; attributes that are merged or overwritten — annotation lists,
+   debug tables — may repeat), and no method has two Code attributes; decidable, computed from the generated
+   tables.  [build_ok T AT]: one more finite check of the generated tables — the tables visited after an attribute
+   loop are distinct and their visit calls are not the visit call of any arm. *)
+From FB Require Import C17.Theory16.
+
+Theorem C17_generated_build_ok : build_ok tables accept_tables_gen = true.
+Proof. exact generated_build_ok. Qed.
+Print Assumptions C17_generated_build_ok.
+
+(* for ALL tables that pass the finite checks, every grammar and every well-formed class without a repeated
+   at-most-once attribute: the (lenient) tree builder accepts the events of the full read — the hypothesis
+   `build … = Ok tree` of C17_rebuild / C17_replay_known / C17_replay_rows_known is met *)
+Theorem C17_build_succeeds_gen : forall T AT g c h,
+  tables_ok T = true -> accept_ok T AT = true -> build_ok T AT = true ->
+  wf g T c h ->
+  forallb (fun m => once_item_b (h_pool h) T AT (rt_field T) (at_field AT) (m_attrs m)) (c_fields c) = true ->
+  forallb (fun m => once_item_b (h_pool h) T AT (rt_method T) (at_method AT) (m_attrs m)) (c_methods c) = true ->
+  once_item_b (h_pool h) T AT (rt_class T) (at_class AT) (c_attrs c) = true ->
+  exists tree, build false T AT (spec_class T (v_full T) h c) = Ok tree.
+Proof. exact build_succeeds_gen. Qed.
+Print Assumptions C17_build_succeeds_gen.
+
+(* for the code as it is, with decidable hypotheses only *)
+Theorem C17_build_succeeds : forall c, wf_b tables c = true -> once_b tables accept_tables_gen c = true ->
+  exists tree, build false tables accept_tables_gen (spec_class tables (v_full tables) (header_of c) c) = Ok tree.
+Proof. exact build_succeeds. Qed.
+Print Assumptions C17_build_succeeds.
+
+(* non-vacuity (the javac-17 class of C17_examples satisfies both hypotheses) and necessity (a class with two
+   Signature attributes is well-formed, violates once_b, and the builder refuses it) *)
+Theorem C17_build_once_examples : once_examples.
+Proof. exact once_examples_hold. Qed.
+Print Assumptions C17_build_once_examples.
+
+(* everything together for the code as it is, with decidable hypotheses only (wf_b, once_b, replay_inexact): the
+   tree of the full read exists; replaying it into the tree builder reproduces it; and outside the known class,
+   for EVERY visitor, replaying the tree delivers what reading the bytes delivers — the same events up to the
+   order of attribute-level events within an item, and the same line-number / local-variable / exception tables
+   row by row in the same order *)
+Theorem C17_replay_total : forall c, wf_b tables c = true -> once_b tables accept_tables_gen c = true ->
+  exists tree, build false tables accept_tables_gen (full_of c) = Ok tree
+    /\ build false tables accept_tables_gen (accept_class tables accept_tables_gen (v_full tables) tree) = Ok tree
+    /\ (replay_inexact tables accept_tables_gen (full_of c) = false ->
+        forall v rest, exists t_v, read_class g_len tables v (enc c ++ rest) = Ok (t_v, rest)
+           /\ sim_trace (accept_class tables accept_tables_gen v tree) t_v
+           /\ forall k d, delivers (accept_class tables accept_tables_gen v tree) k d <-> delivers t_v k d).
+Proof. exact replay_total. Qed.
+Print Assumptions C17_replay_total.
